@@ -90,6 +90,37 @@ def run(tier):
             ev.add(evaluations=m, traces_validated_against_impl=m)
             done += m
             k += 1
+        # an output that cannot take the bytes (a full device): uncorrupted pairs whose result ends in one large write, in many
+        # small ones, in copies only - `copia patch` must not exit 0, whichever write it is that fails (H28)
+        import random
+        import subprocess
+        rng = random.Random(vlib.seed())
+        fd = os.path.join(work, "full")
+        os.makedirs(fd, exist_ok=True)
+        nfull = 0
+        for name, blen, mk in [("literal-tail", 3000, lambda b: b + rng.randbytes(300_000)), ("copies-only", 1 << 20, lambda b: b),
+                               ("small", 3000, lambda b: b[:1500] + b"x" + b[1500:]), ("one-block-literal", 4096, lambda b: rng.randbytes(2048)),
+                               ("mixed", 200_000, lambda b: b[:70_000] + rng.randbytes(66_000) + b[70_000:])]:
+            basis = rng.randbytes(blen)
+            for fn, data in (("b", basis), ("s", mk(basis))):
+                with open(os.path.join(fd, fn), "wb") as f:
+                    f.write(data)
+            env = dict(os.environ, RUST_LOG="off")
+            q = [subprocess.run([copia, "signature", os.path.join(fd, "b"), "-o", os.path.join(fd, "sig")], capture_output=True, env=env),
+                 subprocess.run([copia, "delta", os.path.join(fd, "s"), os.path.join(fd, "sig"), "-o", os.path.join(fd, "d")], capture_output=True, env=env)]
+            if any(x.returncode != 0 for x in q):
+                raise vlib.ToolError(f"full-device case {name}: could not build the valid pair: {q[-1].stderr[-200:]}")
+            pr = subprocess.run(["timeout", "30", copia, "patch", os.path.join(fd, "b"), os.path.join(fd, "d"), "-o", "/dev/full"], capture_output=True, env=env)
+            nfull += 1
+            if pr.returncode == 0:
+                vd.violation(f"full-device-{name}", f"`copia patch` onto a full device exited 0 ({pr.stdout.decode('utf8', 'replace').strip()[:100]}): "
+                             f"success reported for bytes that were never written (valid pair '{name}', basis {blen} bytes)",
+                             {"kind": "patch-full-device", "case": name, "seed": vlib.seed()})
+            elif pr.returncode not in (1, 2):
+                vd.violation(f"full-device-crash-{name}", f"`copia patch` onto a full device ended with status {pr.returncode}: {pr.stderr.decode('utf8', 'replace')[-200:]}",
+                             {"kind": "patch-full-device", "case": name, "seed": vlib.seed()})
+        ev.extra["full_device_cases"] = nfull
+        ev.add(evaluations=nfull, traces_validated_against_impl=nfull)
         ev.add(rule="TLC enumerates every valid (basis, delta) over 2 symbols, length <= 3, B in {1,2} x every single corruption; "
                     "each is run at 2 (quick) / 4 block sizes on both engines, a subset on the CLI. non-trivial = predicted "
                     "outcome is an error. Plus seeded 1-3-fold byte-level corruptions of real pairs validated by TLC.",
